@@ -622,10 +622,16 @@ def oracle(case, obs):
     return f'invented result keys {invented[:3]}'
   if dropped:
     return f'dropped result keys {dropped[:3]}'
+  fails = []
   for k in sorted(exp):
     if not deep_close(got[k], exp[k]):
       kind = 'unsliced result' if k[1] == 'null' else 'slice'
-      return f'{kind} {k[0]} {k[1]}: pipeline reports {got[k]}, brute-force group-by gives {exp[k]}'
+      tag = ' [replace-absent]' if k[1] != 'null' and _replace_absent(case, k[1]) else ''
+      fails.append(f'{kind} {k[0]} {k[1]}: pipeline reports {got[k]}, brute-force group-by gives {exp[k]}{tag}')
+  # a deviation that is not the known replace-mode one is reported first
+  for f in fails:
+    if not f.endswith('[replace-absent]'):
+      return f
   # slicer independence (metamorphic, on the real code)
   if 'no_slicers' in obs:
     ns = obs['no_slicers']
@@ -648,7 +654,18 @@ def oracle(case, obs):
       for k in al:
         if not deep_close(al[k], mine[k]):
           return f"slicer {sl['name']} entry {k} depends on the other slicers: {mine[k]} vs alone {al[k]}"
-  return None
+  return fails[0] if fails else None
+
+
+def _replace_absent(case, slice_json):
+  """is this slice key one of a replace-mode row slicer whose value is missing from some batch?"""
+  import json
+  d = json.loads(slice_json)
+  for sl in case['slicers']:
+    if sl['name'] == d['features'] and sl.get('replace') is not None and sl['kind'] != 'mask':
+      per = _slice_keys_per_batch(case, sl)
+      return any(tuple(d['values']) not in ks for ks in per)
+  return False
 
 
 def _slice_features(sj):
@@ -702,14 +719,11 @@ def has_ragged_rowslice(case):
 
 
 def finding(case, what):
+  """known-finding classes, by predicate over the failing case"""
   if has_ragged_rowslice(case) and 'raised ValueError' in what:
     return 'F-C02-ragged-rows'
-  for sl in case['slicers']:
-    if sl.get('replace') is not None and sl['kind'] != 'mask':
-      per = _slice_keys_per_batch(case[:0] if False else case, sl)
-      if any(a != b for a in per for b in per):
-        if 'slice' in what and jdump(sl['name'])[1:-1] in what:
-          return 'F-C02-replace-absent'
+  if what.endswith('[replace-absent]'):
+    return 'F-C02-replace-absent'
   return None
 
 
@@ -921,10 +935,9 @@ def gen_malformed(rng):
     k = [sl for sl in case['slicers'] if sl['kind'] != 'mask'][0]['keys'][0]
     if k in case.get('np', []):
       case['np'].remove(k)
-    b[k] = (b[k] + [1, 1]) if how == 'long_feature' else b[k][:-1] + ([] if len(b[k]) > 2 else [])
-    if nrows(b) == 2 and how == 'short_feature':
-      how = 'dup_out'
-      b[k] = b[k] + [0]
+    if how == 'short_feature' and len(b[k]) < 3:
+      how = 'long_feature'         # a length-1 mask would be broadcast by numpy (outside the model)
+    b[k] = (b[k] + [1, 1]) if how == 'long_feature' else b[k][:-1]
   elif how in ('long_feature', 'short_feature'):
     how = 'dup_out'
   if how == 'dup_out':
@@ -1075,7 +1088,6 @@ def neighbours(case, rng):
     else:
       for sl in c['slicers']:
         sl['replace'] = rng.choice([None, 0, 3])
-    c.pop('malform', None)
     yield c
   for _ in range(60):
     yield gen_random(rng)
